@@ -11,11 +11,21 @@
   The well-formedness conditions are exactly the token-level ambiguities of Rust's tokenisation
   (a free-standing `-` before a literal, `:` before an identifier, the lone `.`), shown necessary by
   witnesses in that file.
-  Text side (the parser reads `valueOf d` from the S-expression text): the C01 round-trip work.
+  Text side, proved (LexprModel/Proofs/MacroText.lean, imported here): `stext d`, the S-expression
+  text of a tree, equals the default printer's text of `valueOf d` (`stext_eq_print`), the default
+  parser reads it as `valueOf d` (`C09_text`), hence `C09_agree`: for every well-formed tree in the
+  proved sub-language (`TextOK`: integers, strings and characters that need no escape, all symbol and
+  keyword spellings, lists, dotted lists, vectors, nesting ≤ 127)
+      expand env (toks d) = some (valueOf env d)  ∧  fromTrait cfg (initSt .slice (stext d)) = .ok (valueOf env d) _ ;
+  `C09_text_literal` / `C09_agree_literal`: the same for the literal text with unmerged dotted tails
+  (`(a . (b c))` reads as `(a b c)`); `C09_names`: every Rust identifier and punctuation run is a
+  plain name.  Outside the theorem: floats, unquotes (no text), escapes in literals (rustc unescapes).
+  Witnesses kept there: `(. 5)`, `#(. a)`, the 127-fold dotted literal.
   Tie: batches of generated `sexp!` invocations compiled against /repo, compared with `from_str`
   and with this model.
 -/
 import LexprModel.Proofs.MacroSpec
+import LexprModel.Proofs.MacroText
 namespace Lexpr
 namespace Macro
 
